@@ -38,7 +38,10 @@ CLAIMS = {
         text="Static decision, on drop-elaborated MIR with explicit unwind edges, of every ordering obligation that "
         "makes a panicking element destructor harmless: size/start are shrunk before drop_range runs (PS1), and nothing of the header is written after it (PS1b), drop_range destroys on every non-empty path (DESTROY1), explicit "
         "destruction never targets a still-armed local (PS2), all panic guards exist before the first is dropped "
-        "(DROPPER1), Drain::drop destroys before restoring size and nothing can unwind afterwards (DRN1 d,e), and the "
+        "(DROPPER1), Drain::drop destroys before restoring size and nothing can unwind afterwards (DRN1 d,e), a store that may "
+        "shrink size is followed by drop_range on every path with no user code in between, or the function returns the Drain that "
+        "takes custody (SHRINK1), every header store — including those a guard's Drop performs while unwinding — has a reviewed "
+        "writer and value shape (INV1), and the "
         "functions with direct destructor sites are the reviewed closed table. Holds for every N, layout, argument "
         "and choice of panicking destructor because none of the obligations depends on them. The step from the "
         "obligations to 'no second drop' is a short argument in DESIGN.md, not machine-checked, hence level other.",
@@ -80,7 +83,9 @@ CLAIMS = {
         "from_iter iterator, element eq/cmp/hash/fmt, element destructors) is reached, from every public entry and "
         "through callee summaries, only in the `balanced` occupancy state, that public entries return balanced and "
         "loop heads have a single state; plus the Guard protocol of write_uninit_slice_cloned (GUARD1), read-only-ness "
-        "of comparison/hash/fmt impls (RO1) and the closed table of forget/ManuallyDrop sites (LEAK1). Independent of "
+        "of comparison/hash/fmt impls (RO1), the closed table of forget/ManuallyDrop sites (LEAK1), and that elements taken "
+        "out of the buffer's custody by a shrinking store are handed to drop_range or a Drain before any user code runs "
+        "(SHRINK1). Independent of "
         "N, layout, argument length and of which invocation panics.",
         note="Unwind edges whose only source is an implicit bounds / zero-divisor check are treated as infeasible "
         "(INV + MOD1); external callees are classified by resolved where-clauses and a reviewed structural-impl table; "
@@ -128,8 +133,10 @@ CLAIMS = {
         "back-fill loop lies on every path to the restore (DRN1 d,e, DROPPER1, BACKFILL1); next/next_back read exactly the "
         "index produced by std's Range iterator and len/size_hint are that iterator's (DRAINIT1); no modulus/index by "
         "capacity zero reachable from drain/Drain (MOD1); every RangeBounds form translated as documented (RANGE1). Also DRNVIEW1 (views bounded by iter), VIEWCMP1 (contiguity test), KIND1 on the Drain functions, ITERSET1 for Drain. Not "
-        "decided: back-fill arithmetic, order preservation, termination (values).",
-        note="Trusted: std's Range<usize> iterator and RangeBounds impls. Which slots the un-yielded slices cover "
+        "decided: back-fill arithmetic, order preservation, termination (values). SUB1/RIDX1 restricted to the drain code (thorough "
+        "tier: also on the debug-assertion build, whose assertion arithmetic is code too).",
+        note="Assumed (reviewed) struct invariant of Drain, an axiom of the guard reasoning: range.start <= iter.start <= iter.end <= "
+        "range.end <= buf_size <= N. Trusted: std's Range<usize> iterator and RangeBounds impls. Which slots the un-yielded slices cover "
         "(Drain::as_mut_slices bounds) is value-level and not decided.",
         ref="DESIGN.md §5 C09",
     ),
@@ -140,7 +147,9 @@ CLAIMS = {
         text="Static decision of every premise of the leak-safety argument: Drain is constructed only in over_range; there "
         "size := 0 (after validation) dominates the pointer, the Drain and the return and is the only store; no Drain "
         "method but drop writes size; the only move-out is reachable only through &mut Drain; Drain is not Clone/Copy; "
-        "plus the C04 obligations (ACC1, ACC2, INV1) under which a buffer of size 0 touches no slot. The implication "
+        "plus the C04 obligations (ACC1, ACC2, INV1, WHOLE1: a whole-array fill only where start == 0 is established, not assumed "
+        "from what an earlier — possibly leaked — operation left behind) under which a buffer of size 0 touches no slot and keeps "
+        "working. The implication "
         "premises => property is a three-line argument in DESIGN.md, hence level other.",
         note="Relies on C04's rules; the implication itself is not machine-checked.",
         ref="DESIGN.md §5 C10",
@@ -225,6 +234,9 @@ CLAIMS = {
         "usize subtraction over transparent operands (N - 1, N - size, size - len, N - position - 1, count - len ...) can "
         "underflow (SUB1, 34 of 54 obligations decided; the rest mention opaque values and are listed as undecided). Not "
         "decided: the number theory of add_mod's overflow compensation (its result < m is assumed); M - <loop counter> in From<[T; M]>. "
+        "Position arithmetic through usize's saturating/wrapping/checked/overflowing methods is reported like raw `+` (POS1), a "
+        "comparison of two raw element pointers like size_of (ZST1: addresses coincide for zero-sized T), a whole-array fill where "
+        "nothing establishes start == 0 (WHOLE1). "
         "Because every rule of this machinery is decided for a symbolic capacity and element type, the sequence-semantics rules "
         "whose verdict is thereby valid at N = usize::MAX and for zero-sized T are evaluated under this property too: RIDX1, "
         "DRNVIEW1/DRAINIT1 (destructor runs of a drain), ORD1/HASH1/DBG1/BASE2/BASE3 (comparison results), TWIN of the range views.",
